@@ -397,7 +397,11 @@ def r3(prog, rep):
         k = list(nf.terms)[0]
         coef = nf.terms[k].const_value()
         cst = nf.const.const_value()
-        if coef is not None and cst is not None and coef != 0 and -cst / coef == 1 and "range(len(ranges))" in k.replace("pieces", "len(ranges)"):
+        # ... over the whole index set of the selector family (the same canonical domain text)
+        idx = zc.get("indexes", "")
+        idx = idx[5:-1] if idx.startswith("list(") and idx.endswith(")") else idx
+        m_dom = re.match(r"SUM\[\w+ in (.*?)\] " + re.escape(zname) + r"\[\w+\]$", k)
+        if coef is not None and cst is not None and coef != 0 and -cst / coef == 1 and m_dom and m_dom.group(1) == idx and idx.startswith("range(len("):
             ok1 = True
             rep.ok("C12.R3", f"{base}:one-hot", "sum of selectors == 1 over all pieces", f.loc(e.node), sample={"row": nf.key()})
     if not ok1:
@@ -1142,6 +1146,22 @@ def bounds_materialised(prog, rep, RID):
                         scalar_types = names
     if scalar_types is None:
         raise AnalysisError("add_variables: the scalar branch of the bound normalisation (isinstance test on the bound) was not found")
+    # the last resort (the default bound) is reached only by values that are not numbers at all: a scalar of another numeric type - Fraction, Decimal, a
+    # 0-dimensional numpy array - is neither listed in the isinstance test nor iterable
+    key2 = "SolverWrapper.add_variables:scalar-bounds-other-numeric-types"
+    default_rets = [r for r in ast.walk(helper) if isinstance(r, ast.Return) and r.value is not None and "default" in norm(r.value)]
+    broad = bool(scalar_types & {"numbers.Number", "numbers.Real", "Number", "Real"})
+    tried = False
+    for r in default_rets:
+        for t in ast.walk(helper):
+            if isinstance(t, ast.Try) and any(any(x is r for x in ast.walk(h)) for h in t.handlers):
+                if any(isinstance(x, ast.Return) and x.value is not None and f"float({param})" in norm(x.value) for b in t.body for x in ast.walk(b)):
+                    tried = True
+    if broad or tried or not default_rets:
+        rep.ok(RID, key2, "a bound that is not iterable is converted with float() before the default is considered", f.loc(helper))
+    else:
+        rep.violation(RID, key2, f"a bound that is neither {sorted(scalar_types)} nor a dict nor iterable silently becomes the default bound: Fraction(5), Decimal(5) and "
+                      "np.asarray(5.0) (a 0-dimensional array) are numbers, but add_variables(['a'], 'x_', lb=0, ub=np.asarray(5.0)) gives a variable bounded by 1", f.loc(default_rets[0]))
     if scalar_types & NUMERIC_ABCS:
         rep.ok(RID, key, f"scalar bounds are recognised by isinstance(..., {sorted(scalar_types)}): numpy scalars included", f.loc(helper))
     else:
